@@ -189,6 +189,12 @@ def check_write(case, rec):
     from mpilot.arguments import Argument
     from mpilot.libraries.eems.csv.io import EEMSWrite
 
+    if case.get("tile_to"):
+        reps = -(-case["tile_to"] // len(case["results"][0]["spec"]["data"]))
+        case = dict(case, results=[dict(r, spec=dict(r["spec"], data=(r["spec"]["data"] * reps)[:case["tile_to"]],
+                                                       mask=(r["spec"]["mask"] * reps)[:case["tile_to"]] if r["spec"]["mask"] else None))
+                                   for r in case["results"]])
+        rec.label("write_rows:%d" % case["tile_to"])
     tmp = tempfile.mkdtemp(prefix="vcheck-c17-")
     try:
         path = os.path.join(tmp, "out.csv")
@@ -302,6 +308,10 @@ def read_cases(draw):
             missing = draw(st.sampled_from(values))
         else:
             missing = draw(st.sampled_from([-9999, 99, 0, -9999.5])) if dtype == "Float" else draw(st.sampled_from([-9999, 99, 0]))
+    if missing is not None and dtype == "Float" and nrows and draw(st.integers(0, 2)) == 0:
+        # a cell that is almost, but not, the missing value stays an ordinary cell
+        near = missing * (1 + 2e-6) if missing else 1e-9
+        cols[target]["cells"][draw(st.integers(0, nrows - 1))] = cell_text(near, "repr")
     blanks = draw(st.lists(st.integers(0, nrows), max_size=3))
     case = {"columns": cols, "target": target, "dtype": dtype, "missing": missing, "blanks": blanks, "garbage": garbage,
             "crlf": draw(st.integers(0, 3)) == 0}
@@ -337,6 +347,9 @@ def write_cases(draw):
         mask = draw(st.one_of(st.none(), st.lists(st.sampled_from([0, 0, 0, 1]), min_size=n, max_size=n)))
         results.append({"name": nm, "spec": {"data": data, "mask": mask, "dtype": dtype}})
     case = {"results": results}
+    big = draw(st.sampled_from([None] * 14 + [256, 1000, 4096, 8192]))
+    if big:
+        case["tile_to"] = big  # the same cells repeated up to a table of this many rows (a power of two, a round number)
     if draw(st.integers(0, 2)) == 0:
         case["preexisting"] = draw(st.sampled_from([1, n, n + 2]))
     if draw(st.integers(0, 3)) == 0:
